@@ -8358,15 +8358,14 @@ class NetCDFRead(IORead):
         return True
 
     def _dimensions_are_subset(self, ncvar, dimensions, parent_dimensions):
-        """True if dimensions are a subset of the parent dimensions."""
-        if not set(dimensions).issubset(parent_dimensions):
-            if not (
-                self._is_char(ncvar)
-                and set(dimensions[:-1]).issubset(parent_dimensions)
-            ):
-                return False
+        """True if dimensions are a subset of the parent dimensions.
 
-        return True
+        *dimensions* are those returned by `_ncdimensions`, i.e. for
+        a char variable the trailing string-length dimension has
+        already been removed.
+
+        """
+        return set(dimensions).issubset(parent_dimensions)
 
     def _check_grid_mapping(
         self, parent_ncvar, grid_mapping, parsed_grid_mapping
